@@ -152,6 +152,16 @@ def handle (st : Option SCase) (args : List String) : Option SCase × String :=
       let e := (splitList extra ',').map String.toNat!
       (st, if omittedInside c.t c.vs i e pep.toList then "inside"
            else if omittedAdjacent c.t c.vs i e pep.toList then "adjacent" else "outside")
+  | ["wc", seq, vars, rule, exc, misc, minMw, minLen, maxLen, w2f, ids, pep] =>
+    match mkCfg rule exc misc minMw minLen maxLen "0" w2f "" with
+    | none => (st, "bad-rule")
+    | some g =>
+      let vs := (splitList vars ';').filterMap parseVar
+      let i := (splitList ids ',').map String.toNat!
+      (st, if witnessCirc g seq.toList vs i pep.toList then "yes"
+           else match witnessCircCompletion g seq.toList vs i pep.toList with
+             | none => "no:none"
+             | some e => "no:extra:" ++ natList e)
   | ["novelorf", seq, rule, exc, misc, minMw, minLen, maxLen, w2f, canon] =>
     match mkCfg rule exc misc minMw minLen maxLen "0" w2f canon with
     | none => (st, "bad-rule")
